@@ -129,7 +129,28 @@ def _gen0(rng, tier):
         yield 'EXHAUSTIVE'
 
 
+def gen_late(rng, tier):
+    # a microstate that shows up only two frames before the end: the model at lag 1 is ergodic, at lag 2 the
+    # late state is entered but never left (not a transition matrix -> refusal); one object is asked at both lags
+    for _ in range(G.budget(10) if tier == 'quick' else 300):
+        k = rng.randint(3, 5)
+        labs, akind = G.alphabet(rng, k=k + 1)
+        rng.shuffle(labs)
+        late, labs = labs[0], labs[1:]
+        t = chain(rng, labs, rng.randint(60 * k, 120 * k))
+        t = t + [late, rng.choice(labs)]
+        present = sorted(set(t))
+        nm = rng.randint(2, len(present) - 1)
+        mlabs, _ = G.alphabet(rng, k=nm)
+        f = lump(rng, present, nm, mlabs)
+        first_lag, lag = rng.choice([(2, 1), (2, 1), (1, 2), (3, 1)])
+        yield {'macro': [[f[v] for v in t]], 'micro': [t], 'pos': rng.random() < 0.5, 'lag': lag, 'prelags': [first_lag],
+               'style': 'late-state', 'alpha': akind}
+
+
 def gen(rng, tier):
+    for case in gen_late(rng, tier):
+        yield case
     for case in _gen0(rng, tier):
         if isinstance(case, dict) and case.get('style') != 'enum':
             r = rng.random()
